@@ -227,7 +227,7 @@ func Verif_TV_codec_vectors() {
 	}
 	// malformed OPEN bodies
 	for _, b := range [][]byte{{}, {4, 0, 1}, {4, 0xfd, 0xe9, 0, 90, 10, 0, 0, 1, 0}, {4, 0xfd, 0xe9, 0, 90, 10, 0, 0, 1, 2, 3, 0}, {4, 0xfd, 0xe9, 0, 2, 224, 0, 0, 1, 8, 2, 6, 65, 4, 0, 0, 0xfd, 0xe9}, {5, 0xfd, 0xe9, 0, 90, 10, 0, 0, 1, 4, 2, 2, 1, 0}} {
-		m, err := messageFromBytes(b, openMessageType)
+		m, err := messageFromBytes(b, verifMsgOpen)
 		verifObserve("badopen.err", err != nil)
 		n, _ := c02Notif(err)
 		if n != nil {
@@ -255,7 +255,7 @@ func Verif_TV_codec_vectors() {
 		verifObserve("notif.dec.code", d.Code)
 		verifObserve("notif.dec.data", d.Data)
 	}
-	verifObserve("hdr", prependHeader([]byte{1, 2, 3}, updateMessageType))
+	verifObserve("hdr", prependHeader([]byte{1, 2, 3}, verifMsgUpdate))
 	var ne *notificationError
 	verifObserve("as", errors.As(newNotificationError(&Notification{Code: 2}, true), &ne))
 }
